@@ -22,6 +22,7 @@ OLD_Z3 = '/usr/bin/z3'
 FRESH_CTX = not _os.environ.get('PYVC_NO_FRESH_CTX')
 CONCRETISE = not _os.environ.get('PYVC_NO_CONCRETISE')
 FEAS_REDUCED = not _os.environ.get('PYVC_NO_FEAS_REDUCED')
+FEAS_SECOND_MS = int(_os.environ.get('PYVC_FEAS_SECOND_MS', '300'))
 _REC_CACHE = {}
 _REC_KEEP = []      # keeps the formulas alive so that ids are not reused
 
@@ -263,7 +264,9 @@ class Run:
 
     def feasible(self, cond):
         t0 = time.time()
-        if FEAS_REDUCED and self.mentions_rec_any():
+        reduced = False
+        if FEAS_REDUCED and getattr(self.w, 'feas_reduced', False) and self.mentions_rec_any():
+            reduced = True
             # path pruning from the hypotheses that do not mention recursive spec functions only: satisfiability
             # WITH them needs a model of the recursive functions, which z3 rarely finds within the budget (answer
             # `unknown` after the full budget, i.e. "feasible" anyway).  Fewer hypotheses = more paths, never fewer.
@@ -281,6 +284,11 @@ class Run:
             r = z3.unsat if fr == 'unsat' else z3.sat if fr == 'sat' else z3.unknown
         else:
             r = s.check()
+        if reduced and r != z3.unsat and FEAS_SECOND_MS:
+            # satisfiable without the hypotheses about recursive functions: a short attempt with all hypotheses
+            # (prunes the branches that contract post-conditions such as is_comb's exclude; `unknown` = feasible)
+            if fresh_ctx_check(self._solver(cond, FEAS_SECOND_MS), FEAS_SECOND_MS) == 'unsat':
+                r = z3.unsat
         self.solver_secs += time.time() - t0
         if DEBUG_DUMP and time.time() - t0 > 1.0:
             sys.stderr.write('SLOW feasibility %.1fs %s: %s\n' % (time.time() - t0, r, str(cond)[:300]))
